@@ -77,7 +77,7 @@ impl Remover {
                 range_cursor += 1;
 
                 let can_squash =
-                    range.contains(&pending_range.start) && range.contains(&pending_range.end);
+                    range.contains(&pending_range.start) && pending_range.end <= range.end;
                 if !can_squash {
                     merged_ranges.push(((pending_range.clone(), *pending_idx), false));
                 }
